@@ -26,7 +26,7 @@ let fingerprint (c : E.client) (res : string) (ev : int option) : string =
   let msgs = if ms = [] then "-" else String.concat "," (L.map (fun (i, s, e) -> Printf.sprintf "%d:%d:%d" i s e) ms) in
   let last = match k.k_last with Some (_, m) -> si m | None -> "-" in
   Printf.sprintf "res=%s ep=%s mls=%s st=%s act=%d pend=%d props=%d snaps=%d dd=%s name=g%s last=%s msgs=%s"
-    res (si k.k_rec_epoch) (si k.k_epoch) (si k.k_cur) (if k.k_active then 1 else 0) (if k.k_pending <> None then 1 else 0)
+    res (si k.k_rec_epoch) (si k.k_epoch) (if k.k_active then si k.k_cur else "x") (if k.k_active then 1 else 0) (if k.k_pending <> None then 1 else 0)
     (L.length k.k_props) (L.length c.queue) dd (si k.k_data) last msgs
 
 let mk_event id kind facts ts msg : E.event =
@@ -34,7 +34,7 @@ let mk_event id kind facts ts msg : E.event =
   { E.e_id = n_of_int id; e_kind = n_of_int kind; e_ts = ni ts; e_key = ni (g "idkey" "0"); e_author = ni (g "author" "0");
     e_state = ni (g (if kind = 0 then "parent" else "state") "0"); e_epoch = ni (g (if kind = 0 then "pepoch" else "epoch") "0");
     e_auth = (g "auth" "1" = "1"); e_data = ni (g "data" "0"); e_msg = n_of_int msg;
-    e_removes = L.map ni (split_on ',' (g "removes" "-")); e_bad = ni (g "bad" "0") }
+    e_removes = L.map ni (split_on ',' (g "removes" "-")); e_refs = L.map ni (split_on ',' (g "refs" "-")); e_bad = ni (g "bad" "0") }
 
 let handle_proto (toks : string list) : string =
   (* split at the facts separator "|" *)
@@ -76,7 +76,7 @@ let handle_proto (toks : string list) : string =
       Hashtbl.replace events ev e;
       !clients.(m) <- E.leave_created !clients.(m) e;
       fingerprint !clients.(m) "ok" (Some ev) end
-  | "BAD" ->   (* declaration of a hostile event: PR BAD <ev> <ts> | bad=<class> state=.. epoch=.. *)
+  | "BAD" ->   (* declaration of a hostile event: PR BAD <ev> <ts> <cls> | bad=<model class> *)
     let ev = i 1 in Hashtbl.replace events ev (mk_event ev 3 facts a.(2) 0); "ok"
   | "DELIVER" ->
     let m = i 1 and ev = i 2 in
@@ -91,7 +91,7 @@ let handle_proto (toks : string list) : string =
           let aev = int_of_string ae in
           let e2 = { (mk_event aev 0 facts (try L.assoc "autots" facts with Not_found -> "0") 0) with
                      E.e_key = ni (try L.assoc "autokey" facts with Not_found -> "0"); e_author = n_of_int m;
-                     e_state = c.kc.k_cur; e_epoch = c.kc.k_epoch; e_auth = true; e_removes = [e.e_author] } in
+                     e_state = c.kc.k_cur; e_epoch = c.kc.k_epoch; e_auth = true; e_removes = [e.e_author]; e_refs = [e.e_id] } in
           Hashtbl.replace events aev e2
         | None -> ());
        fingerprint c (rk_name r) (Some ev) ^ " rb=" ^ si c.rollbacks)
